@@ -85,14 +85,20 @@ func evalInterval(v ssa.Value, depth int) (lo, hi int64, ok bool) {
 	return 0, 0, false
 }
 
+// isSentinelIdentity: cnd is "(X == sentinel)" in canonical operand order.
+func isSentinelIdentity(cnd, sentinel string) bool {
+	return strings.HasPrefix(cnd, "(") && (strings.HasSuffix(cnd, " == "+sentinel+")") || strings.HasPrefix(cnd, "("+sentinel+" == "))
+}
+
 func checkC03(c *Ctx) {
 	r := c.R
+	identityUsed := map[string]bool{}
 	h := c.fn("C03.1", "cmd/application", "connManager", "handleNewTCPConn")
 	r.Rule("C03.1", "before identification the connection is only observed, read, drained or offered to a transport; transports do not touch it", 8)
 	r.Rule("C03.2", "no return of the handler after the deadline is set without waiting it out (drain / sleep / read error / Proxy)", 1)
 	r.Rule("C03.3", "deadline set before the first read, d in [5 s, 10 s)", 2)
 	r.Rule("C03.4", "obfs4 thresholds: try-again below the minimum / maximum handshake length, not-transport only at the maximum", 3)
-	r.Rule("C03.5", "transports loop: remove only on ErrNotTransport / foreign registration; keep on ErrTryAgain", 2)
+	r.Rule("C03.5", "transports loop: remove only on ErrNotTransport / foreign registration; keep on ErrTryAgain; classification agrees with wrapping", 3)
 
 	if h != nil {
 		var conn *ssa.Parameter
@@ -255,6 +261,10 @@ func checkC03(c *Ctx) {
 					if pol && strings.HasPrefix(cnd, "errors.Is(") && strings.HasSuffix(cnd, "transports.ErrNotTransport)") {
 						return true
 					}
+					if pol && isSentinelIdentity(cnd, "transports.ErrNotTransport") {
+						identityUsed["ErrNotTransport"] = true
+						return true
+					}
 					if !pol && strings.HasSuffix(cnd, ".(*lib.DecoyRegistration)#1") {
 						return true
 					}
@@ -268,6 +278,10 @@ func checkC03(c *Ctx) {
 			}
 			// try-again keeps the transport
 			for e := range edgesEstablishing(h, func(cnd string, pol bool) bool {
+				if pol && isSentinelIdentity(cnd, "transports.ErrTryAgain") {
+					identityUsed["ErrTryAgain"] = true
+					return true
+				}
 				return pol && strings.HasPrefix(cnd, "errors.Is(") && strings.HasSuffix(cnd, "transports.ErrTryAgain)")
 			}) {
 				succ := h.Blocks[e.from].Succs[e.slot]
@@ -311,6 +325,52 @@ func checkC03(c *Ctx) {
 				r.Check(!hit, "C03.5", "handleNewTCPConn: ErrTryAgain keeps the transport for the next read", h.Blocks[e.from].Instrs[len(h.Blocks[e.from].Instrs)-1].(*ssa.If).Cond.Pos(), fnName(h), "no removal before the next WrapConnection/Read",
 					"a transport that asked for more data is removed (or the handler leaves) before it is offered the accumulated bytes again")
 			}
+		}
+	}
+
+	// ---- C03.5b classification and wrapping must agree: a transport that wraps a sentinel (fmt.Errorf("%w", ErrX))
+	// is only classified correctly by errors.Is; an identity comparison sends it down the "unexpected error" branch,
+	// where the handler stops reading (a reaction that depends on how close the probe came).
+	{
+		wraps := map[string]string{}
+		seenF := map[*ssa.Function]bool{}
+		var scan func(f *ssa.Function)
+		scan = func(f *ssa.Function) {
+			if seenF[f] || f.Blocks == nil || !isRepoPath(fnPkgPath(f)) {
+				return
+			}
+			seenF[f] = true
+			eachInstr(f, func(in ssa.Instruction) {
+				call, ok := in.(*ssa.Call)
+				if !ok {
+					return
+				}
+				if n := calleeName(&call.Call); n == "fmt.Errorf" || n == "errors.Join" {
+					p := pathOf(call)
+					for _, s := range []string{"ErrNotTransport", "ErrTryAgain"} {
+						if strings.Contains(p, "transports."+s) {
+							wraps[s] = fnName(f)
+						}
+					}
+				}
+				if cal := call.Call.StaticCallee(); cal != nil && strings.Contains(fnPkgPath(cal), "/pkg/transports") {
+					scan(cal)
+				}
+			})
+		}
+		for _, f := range wrappingImpls(c) {
+			scan(f)
+		}
+		bad := false
+		for s, where := range wraps {
+			if identityUsed[s] {
+				bad = true
+				r.Bad("C03.5", "handler compares "+s+" by identity while "+where+" returns it wrapped", token.NoPos, where,
+					"a transport returns "+s+" wrapped in another error, but the handler classifies transport results with == instead of errors.Is: the wrapped result takes the unexpected-error branch, where the handler stops reading until the deadline — the station's reaction then depends on the probe's content")
+			}
+		}
+		if !bad {
+			r.OK("C03.5", "sentinel classification agrees with how transports return them", token.NoPos, fmt.Sprintf("wrapped: %v; identity comparisons: %v", wraps, identityUsed))
 		}
 	}
 
